@@ -1,0 +1,14 @@
+//go:build verif
+
+package inverted
+
+// Exported wrappers around the unexported sortable key codec, for the
+// verification harness (only compiled with -tags verif).
+
+func VerifToByteSortable[T Invertable](v T) ([]byte, error) {
+	return toByteSortable(v)
+}
+
+func VerifFromByteSortable[T Invertable](b []byte, v *T) error {
+	return fromByteSortable(b, v)
+}
